@@ -59,7 +59,7 @@ def identify(identification: Identification) -> Expression:
 
     if district_without_treatment in graph.districts():
         parents = list(graph.topological_sort())
-        expression = Product.safe(p_parents(v, parents) for v in district_without_treatment)
+        expression = Product.safe(p_parents(v, parents, identification.estimand) for v in district_without_treatment)
         ranges = district_without_treatment - outcomes
         return Sum.safe(
             expression=expression,
@@ -243,7 +243,7 @@ def line_6(identification: Identification) -> Expression:
         raise ValueError("Line 6 precondition not met")
 
     parents = list(graph.topological_sort())
-    expression = Product.safe(p_parents(v, parents) for v in district_without_treatments)
+    expression = Product.safe(p_parents(v, parents, identification.estimand) for v in district_without_treatments)
     ranges = district_without_treatments - outcomes
     return Sum.safe(
         expression=expression,
@@ -292,19 +292,35 @@ def line_7(identification: Identification) -> Identification:
             return Identification.from_parts(
                 outcomes=outcomes,
                 treatments=treatments & district,
-                estimand=Product.safe(p_parents(v, parents) for v in district),
+                estimand=Product.safe(p_parents(v, parents, identification.estimand) for v in district),
                 graph=graph.subgraph(district),
             )
 
     raise ValueError("Could not identify suitable district")
 
 
-def p_parents(child: Variable, ordering: Sequence[Variable]) -> Probability:
-    """Get a probability expression based on a topological ordering.
+def p_parents(
+    child: Variable, ordering: Sequence[Variable], estimand: Expression | None = None
+) -> Expression:
+    """Get the conditional probability of the child given its predecessors in the ordering.
 
     :param child: The child variable
     :param ordering: A topologically ordered sequence of all variables. All occurring before the
         child will be used as parents.
+    :param estimand: The distribution currently carried through the recursion. If it is the joint
+        distribution over the graph (or a marginal of it), the conditional is written directly;
+        otherwise (after line 7 has replaced the distribution) it is derived from the estimand.
     :return: A probability expression
     """
-    return P(child | ordering[: ordering.index(child)])
+    index = ordering.index(child)
+    if estimand is None or _is_marginal_of_joint(estimand):
+        return P(child | ordering[:index])
+    successors = list(ordering[index + 1 :])
+    return Sum.safe(estimand, successors) / Sum.safe(estimand, [child, *successors])
+
+
+def _is_marginal_of_joint(expression: Expression) -> bool:
+    """Check if the expression is an unconditional probability, possibly summed over some variables."""
+    while isinstance(expression, Sum):
+        expression = expression.expression
+    return isinstance(expression, Probability) and not expression.parents
